@@ -259,6 +259,28 @@ Section ResolveFixed.
     end.
 End ResolveFixed.
 
+(** * The whole [resolve] call: the loop over the requested keys.
+    Keys are handled one after the other, each exactly as [resolve_one_fixed] says; a skipped key is left out of the
+    answer; the first failing key ends the call with its error.  Nothing is carried from one key to the next. *)
+Section ResolveAll.
+  Variable wat_parse : content -> option content.
+  Variable wit_dir_encode : content -> option content.
+  Variable wit_file_encode : content -> option content.
+  Variable wat : bool.
+
+  Definition is_failure (o : outcome) : bool :=
+    match o with ErrUnknown | ErrResolution _ => true | _ => false end.
+
+  (** the outcomes of the keys that were looked at, in request order; the last one is the error when the call fails *)
+  Fixpoint resolve_all (fs : filesystem) (cfg : config) (ks : list key) : list outcome :=
+    match ks with
+    | [] => []
+    | k :: r =>
+        let o := resolve_one_fixed wat_parse wit_dir_encode wit_file_encode wat fs cfg k in
+        if is_failure o then [o] else o :: resolve_all fs cfg r
+    end.
+End ResolveAll.
+
 (** A finite file system given as an association list (used by the correspondence driver and by
     examples); anything not listed is absent. *)
 Fixpoint path_eqb (a b : path) : bool :=
